@@ -723,3 +723,99 @@ CASES += [
     ("list_sort", [[[3, "a"], [1, "b"], [2, "a"], [1, "a"]]]), ("nonlocal_counter", [3]), ("nonlocal_counter", [0]), ("bit_lengths", [0]), ("bit_lengths", [2 ** 32 - 1]), ("bit_lengths", [2 ** 32]),
     ("bit_lengths", [-(2 ** 32) - 1]), ("bit_lengths", [255]),
 ]
+
+
+# ---- iterators are single-pass; itertools (round 8 / benign round)
+import itertools as _it
+from itertools import takewhile as _takewhile, islice as _islice, chain as _chain, dropwhile as _dropwhile
+
+
+def gen_twice(v):
+    g = (x * 2 for x in v)
+    a = list(g)
+    b = list(g)          # exhausted
+    return [a, b]
+
+
+def genfunc_twice(v):
+    def produce():
+        for x in v:
+            yield x + 1
+    g = produce()
+    first = [x for x in g]
+    second = [x for x in g]
+    return [first, second, sum(produce())]
+
+
+def map_filter_twice(v):
+    m = map(lambda x: x + 1, v)
+    f = filter(lambda x: x % 2, v)
+    z = zip(v, v[1:])
+    e = enumerate(v)
+    r = reversed(v)
+    out = [list(m), list(m), list(f), list(f), list(z), list(z), list(e), list(e), list(r), list(r)]
+    return out
+
+
+def next_default(v):
+    it = iter(v)
+    a = next(it, "none")
+    b = next(it, "none")
+    rest = list(it)
+    return [a, b, rest, next(iter([]), None), next((x for x in v if x > 1), -1)]
+
+
+def it_takewhile(v, lim):
+    log = []
+
+    def small(x):
+        log.append(x)
+        return x < lim
+    out = list(_takewhile(small, v))
+    return [out, log, list(_dropwhile(lambda x: x < lim, v)), list(_it.takewhile(lambda x: x < lim, iter(v)))]
+
+
+def it_islice(v, a, b):
+    return [list(_islice(v, a)), list(_islice(v, a, b)), list(_islice(v, a, None)), list(_it.islice(v, a, b, 2)),
+            next(_islice(v, a, None), "none")]
+
+
+def it_islice_neg(v):
+    return list(_islice(v, -1, None))
+
+
+def it_chain(a, b):
+    c = _chain(a, b)
+    first = next(c, None)
+    return [first, list(c), list(c), list(_it.chain.from_iterable([a, b, a])), list(_chain())]
+
+
+def it_shared_iterator(v, n):
+    it = iter(v)
+    head = list(_islice(it, n))
+    tail = list(it)
+    return [head, tail]
+
+
+def it_misc(v):
+    return [list(_it.repeat(7, 3)), list(_it.product([1, 2], "ab")), list(_it.starmap(lambda a, b: a * b, [(1, 2), (3, 4)])),
+            list(_it.filterfalse(lambda x: x % 2, v)), list(_it.accumulate(v)), list(_it.pairwise(v)) if hasattr(_it, "pairwise") else None,
+            list(_it.compress(v, [1, 0, 1, 1]))]
+
+
+def it_groupby(v):
+    return [[k, list(g)] for k, g in _it.groupby(sorted(v), key=lambda x: x % 2)]
+
+
+def takewhile_then_zip(v, w):
+    live = list(_takewhile(lambda x: x is not None, v))
+    return [(a, b) for a, b in zip(w, live)], len(live)
+
+
+CASES += [
+    ("gen_twice", [[1, 2, 3]]), ("genfunc_twice", [[1, 2]]), ("map_filter_twice", [[1, 2, 3, 4]]), ("next_default", [[1, 2, 3]]),
+    ("next_default", [[]]), ("it_takewhile", [[1, 2, 5, 1], 3]), ("it_takewhile", [[], 3]), ("it_takewhile", [[1, 2], 9]),
+    ("it_islice", [[1, 2, 3, 4, 5], 1, 4]), ("it_islice", [[1, 2], 0, 9]), ("it_islice", [[], 2, 3]), ("it_islice_neg", [[1, 2]]),
+    ("it_chain", [[1, 2], [3]]), ("it_chain", [[], []]), ("it_shared_iterator", [[1, 2, 3, 4], 2]), ("it_shared_iterator", [[1], 3]),
+    ("it_misc", [[1, 2, 3, 4]]), ("it_groupby", [[1, 2, 3]]), ("takewhile_then_zip", [[1, 2, None, 4], ["a", "b", "c", "d"]]),
+]
